@@ -42,9 +42,13 @@ def run(ctx):
                 asc = [r.chance(2, 3) for _ in keys]
                 where = r.choice(["", "", " where size > 0", " where is_dir = false", " where name like '%.log'", " where name like '%.txt' or size = 10"])
                 roots = "."
-                if dirs and r.chance(1, 4):
-                    roots = "%s, %s" % (r.choice(dirs), r.choice(["." + "/" + "zz-none", r.choice(dirs)]))
-                    roots = roots if "zz-none" not in roots else r.choice(dirs)
+                if dirs and r.chance(1, 3):
+                    # several roots: a later root can hold the best keys, and the rows of the earlier roots alone can
+                    # already fill the limit
+                    more = r.sample(dirs + ["."], min(len(dirs) + 1, r.choice([1, 2, 2, 3])))
+                    roots = ", ".join(more)
+                    if len(more) > 1:
+                        ctx.count("several_roots_ordered" if ordered else "several_roots_unordered")
                 trav = r.choice(["", " bfs", " dfs"]) + (r.choice([" arc", " archives"]) if with_arc and r.chance(2, 3) else "")
                 # every fourth query shows the path through a function whose *later* argument is the column: still one
                 # row per entry (an absent limit is no limit, whatever the select list looks like)
